@@ -245,6 +245,7 @@ def run(tier: str, seed: int, workers: int):
         "and one operating-point report subscription) and to depth 3-4 from a cold start (no bounds yet); non-trivial = history with a "
         "regular and an operating-point proposal and at least one bounds/result/expiry event",
         "assumptions": [
+            "system inclusion bounds contain 0 W (lower <= 0 <= upper), as C03 states the domain of system bounds and as every pool produces them",
             "the two report subscribers use different priorities (the report channel name does not include the group)",
             "sent-only: the oracle constrains requests that are sent; the last request of an event is compared with the targets in the "
             "latest reports at the quiescent point that ends the event (a target not yet reported counts as 0)",
